@@ -70,6 +70,13 @@ CORPUS = [
     # a parameter whose value is blank but not empty
     ("blank-value", "title ~p~\nattention ~p~\nrole r\n  :a true\nend\ncast\n  bob plays r with ~p~\nend\n", ["p= "]),
     ("blank-value", "title a\ntitle ~p~\n", ["p=\t "]),
+    # a parameter value that starts or ends with a blank (fix cb3d2e8)
+    ("padded-value", "title ~p~\nattention see ~p~\n" + HEAD + "cast\n  carl plays r with ~q~\nend\naudience\n  m audits only while ~c~\n  m expects always: ~e~\n  m computes v as ~e~\nend\n",
+     ["p= x", "q=A=1 ", "c=t > 0 ", "e= t > 1 "]),
+    ("padded-value", "title ~p~\ntitle a ~p~\n", ["p= x\t"]),
+    # a time stamp shorthand written twice (fix 7cd8be2)
+    ("doubled-shorthand", "role r\n  spotlight tail -F log\n  signal s delta at (?P<ts_log>)(?P<ts_log>) (?P<delta>\\d+)\nend\n", []),
+    ("doubled-shorthand", "role r\n  spotlight tail -F log\n  signal s scalar at (?P<ts_deltasecs>) (?P<ts_deltasecs>)? (?P<scalar>\\d+)\nend\n", []),
     # a clause whose text ends in a backslash (followed by a blank in the source, so not a continuation there)
     ("final-backslash", "role A\n  :a printf x\\\\ \nend\naudience\n  w measures C:\\ \nend\n", []),
     ("final-backslash", "title the end\\ \nauthor nobody\n", []),
@@ -159,6 +166,14 @@ class Checker:
             w2 = sorted(str(c) for c in c2 if c[0] == "aud" and c[2].startswith("watch"))
             kind = "expects-like" if (len(w2) > len(w1) and any(c[0] == "aud" and c[2] == "like" for c in cfggen_like(files))) else "not-a-fixpoint"
             self.ofail.append((kind, dict(replay, what=what, oracle=o, printed=r1["Printed"], printed_again=r2["Printed"])))
+        elif sorted(r1["Printed"].split("\n")) != sorted(r2["Printed"].split("\n")):
+            # the clauses agree once parsed: the texts must also agree as printed (blanks included), line for line
+            # up to the order of the lines
+            l1, l2 = r1["Printed"].split("\n"), r2["Printed"].split("\n")
+            self.ofail.append(("not-a-fixpoint", dict(replay, what=what, oracle="the printed lines differ",
+                                                      lines_only_in_first=[l for l in l1 if l not in l2][:5],
+                                                      lines_only_in_second=[l for l in l2 if l not in l1][:5],
+                                                      printed=r1["Printed"], printed_again=r2["Printed"])))
         if r1["Steps"] != r2["Steps"] or r1["Play"] != r2["Play"] or r1["Story"] != r2["Story"]:
             kind = "stale-repeat" if ("REPEATING" in r1["Steps"]) != ("REPEATING" in r2["Steps"]) else "play-differs"
             self.ofail.append((kind, dict(replay, what=what, printed=r1["Printed"], steps=r1["Steps"], steps_after_reload=r2["Steps"])))
@@ -420,6 +435,26 @@ def run(tier, seed):
         if prc.returncode != 0 or not r2.get("Ok"):
             efail.append({"problem": "the output of `shakespeare -n -p` reading the configuration from standard input is not accepted as a configuration",
                           "error": (r2.get("ErrFull") or r2.get("Panic") or prc.stderr)[:600], "stdout": prc.stdout[:400], "config": g["files"], "defines": g["defines"]})
+    # bytes that are no UTF-8 text: a run stores its Config as JSON, which cannot carry them, so whatever is accepted
+    # must survive being printed by -n -p, written to a file as UTF-8 JSON would (U+FFFD for a stray byte) and loaded
+    for b in (0xe9, 0xc0, 0xaa, 0xff):
+        cfgb = (b"role r\n  :a true\nend\ncast\n  bob plays r\nend\nscript\n  tempo 10ms\n  scene " + bytes([b]) +
+                b" entails for bob: a\n  storyline " + bytes([b]) + b"\nend\n")
+        dd = tempfile.mkdtemp(prefix="c10b-", dir=ck.scratch)
+        with open(os.path.join(dd, "l1.cfg"), "wb") as f:
+            f.write(cfgb)
+        p1 = subprocess.run([e2e.BIN, "-n", "-p", "-q", "l1.cfg"], capture_output=True, timeout=30, cwd=dd)
+        rep.count("e2e: stray byte 0x%02x as scene shorthand: %s" % (b, "rejected" if p1.returncode else "accepted"))
+        rep.case(("e2e-bytes", b))
+        if p1.returncode == 0:
+            asjson = json.loads(json.dumps(p1.stdout.decode("utf-8", "replace")))
+            with open(os.path.join(dd, "l2.cfg"), "w", encoding="utf-8") as f:
+                f.write(asjson)
+            p2 = subprocess.run([e2e.BIN, "-n", "-p", "-q", "l2.cfg"], capture_output=True, timeout=30, cwd=dd)
+            if p2.returncode != 0:
+                efail.append({"problem": "a configuration with the stray byte 0x%02x as a scene shorthand is accepted, but what a run stores of it "
+                                         "(Config in result.js: JSON, the byte becomes U+FFFD) does not load" % b,
+                              "config_bytes_hex": cfgb.hex(), "error": p2.stderr.decode("utf-8", "replace")[-400:]})
     rr = results[-1]
     rep.count("e2e: one real run (result.js Config)")
     hp = impl.call("parse", Args={"Text": RUN_CFG, "SkipComments": True})
